@@ -481,6 +481,13 @@ def start_outside_bounds(c, rec) -> bool:
     return any((lb is not None and x < lb) or (ub is not None and x > ub) for x, (lb, ub) in zip(rec["x0"], rec["bounds"]))
 
 
+def powell_from_edge(c, rec) -> bool:
+    """the class of F-C20-5: scipy's bounded Powell started with a coordinate exactly on the edge of its box"""
+    if c.get("method") != "Powell" or not rec.get("bounds"):
+        return False
+    return any(x == lb or x == ub for x, (lb, ub) in zip(rec["x0"], rec["bounds"]))
+
+
 def judge_fit(ctx, c, r):
     c = {"model": "chain", **c}
     if r.get("timeout"):
@@ -533,18 +540,34 @@ def judge_fit(ctx, c, r):
          "arguments_untouched": r["args_untouched"], "works_on_a_copy": not f["returned_model_is_input"]}
     S = {"loss_is_residual_at_best": True, "loss_le_residual_p0": True, "names": list(c["p0"]),
          "input_untouched": True, "arguments_untouched": True, "works_on_a_copy": True}
+    if c.get("bounds") and c.get("method", "L-BFGS-B") in BOUNDED_METHODS:
+        # each reported value lies in the box the caller gave FOR THAT NAME
+        slack = 1e-9
+        R["best_within_requested_bounds"] = all(
+            float(F(c["bounds"][k][0])) - slack <= v <= float(F(c["bounds"][k][1])) + slack for k, v in f["best"] if k in c["bounds"])
+        S["best_within_requested_bounds"] = True
     if "hand_best" in r:
         R["loss_is_loss_of_prediction_at_best"] = abs(f["loss"] - r["hand_best"]) <= 1e-8 * max(1.0, abs(r["hand_best"]))
         S["loss_is_loss_of_prediction_at_best"] = True
-    ctx.judge({"stream": "fit", **c}, R, S, None, finding="F-C20-4" if outside else None,
+    fid = "F-C20-4" if outside else ("F-C20-5" if powell_from_edge(c, rec) else None)
+    ctx.judge({"stream": "fit", **c}, R, S, None, finding=fid,
               what=f"fit.* result: honest loss {f['loss']!r} (recomputed {r['resid_best']!r}, at p0 {r['resid_p0']!r}), input untouched")
     # minimiser contract (trusted assumption of C20_fit_honest) on the recorded scipy result
     contract = {"fun_is_objective_at_x": rec["g_at_x"] is not None and abs(rec["g_at_x"] - rec["fun"]) <= tolr,
                 "fun_le_start": (rec["g_at_x0"] is not None or outside) and rec["fun"] <= r["resid_p0"] + tolr,
                 "dimension": len(rec["x"]) == len(rec["x0"])}
-    ctx.judge({"stream": "contract", **c}, contract, {k: True for k in contract}, None,
-              finding="F-C20-4" if outside else None,
+    ctx.judge({"stream": "contract", **c}, contract, {k: True for k in contract}, None, finding=fid,
               what="scipy.optimize.minimize honours MinimiserContract on this run")
+    # the boxes handed to scipy, entry by entry in the order of p0
+    want = [[float(F(t)) for t in c["bounds"][k]] if k in (c.get("bounds") or {}) else None for k in c["p0"]]
+    Rb = [[float(t) for t in b] for b in rec["bounds"]]
+    if ctx.driver_ok:
+        (mb,) = driver.call_batch([{"op": "c20", "bounds": {"names": list(c["p0"]), "given": [[k, v] for k, v in (c.get("bounds") or {}).items()]}}])
+        Mb = [[float(F(t)) for t in b] for b in mb]
+        Sb = [w if w is not None else m for w, m in zip(want, Mb)]  # the default box is whatever the code ships
+    else:
+        Mb, Sb = None, [w if w is not None else b for w, b in zip(want, Rb)]
+    ctx.judge({"stream": "bounds", **c}, Rb, Sb, Mb, what="boxes passed to scipy.optimize.minimize follow the names of p0")
     # wrapper chain vs the Lean fitWrap/localScipyCall on the recorded result
     if ctx.driver_ok:
         (mv,) = driver.call_batch([{"op": "c20", "fit": {"p0": [[k, q(F(v))] for k, v in c["p0"].items()],
@@ -592,6 +615,14 @@ def gen_fit_cases(ctx):
                     c["other"] = {k: q(F(v) * rng.choice([F(3, 4), F(5, 4), F(3, 2)])) for k, v in true.items()}
                     if kind == "steady_state" and scaled:
                         del c["other"]  # scaled steady-state data contains the constant flux columns
+                if "other" in c and kind != "steady_state" and rng.random() < 0.4:
+                    # nominal initial conditions passed as y0 AND the start value of x among the candidate values
+                    c["y0"] = {k: q(rng.choice([1, 2, F(1, 2)])) for k in MODELS[mname]["vars"]}
+                    c["other"]["x"] = q(rng.choice([F(3, 2), 3, F(1, 4)]))
+                    rest = -F(true["k_in"]) / F(true["a"]) if mname == "lin" else F(true["k1"]) / F(true["k2"])
+                    if F(c["y0"]["x"]) == rest:  # would start AT the steady state: constant data
+                        c["y0"]["x"] = q(rest + 1)
+                    c["true"] = {**true, **c["y0"]}
                 cases.append(c)
     # degenerate standard scaling (the default): a single measured value has std NaN, constant data has std 0
     cases += [{"kind": "steady_state", "loss": "rmse", "scaled": True, "true": {"k1": "1", "k2": "2", "k3": "1"},
@@ -603,7 +634,7 @@ def gen_fit_cases(ctx):
     pert = [F(3, 4), F(5, 4), F(3, 2)]
     nfit = ctx.n(12, 72)
     for i in range(nfit):
-        style = ["params", "initial", "negative", "params", "y0", "negative"][i % 6]
+        style = ["params", "initial", "negative", "params", "y0", "negative", "initial+y0", "params"][i % 8]
         kind = kinds[i % 3] if style == "params" else rng.choice(["time_course", "protocol"])
         loss = rng.choice(["rmse", "rmse", "mean_squared", "mae"])
         c = {"kind": kind, "loss": loss, "scaled": rng.random() < 0.5, "fit": True}
@@ -623,23 +654,156 @@ def gen_fit_cases(ctx):
                 names = [n for n in names if n != "k1"] or ["k2"]  # k1 is driven by the protocol
             p0 = {n: q(F(true[n]) * rng.choice(pert)) for n in sorted(names)}
             c["method"] = rng.choice(["L-BFGS-B", "L-BFGS-B", "Nelder-Mead", "Powell"])
-            if style == "initial":  # fit a start value as well: p0 names a VARIABLE
+            if style in ("initial", "initial+y0"):  # fit a start value as well: p0 names a VARIABLE
                 true = {**true, "x": q(rng.choice([2, 3]))}
                 p0["x"] = q(F(true["x"]) * rng.choice(pert))
             if style == "y0":  # initial conditions supplied by the caller
                 c["y0"] = {"x": q(rng.choice([2, 3])), "y": q(rng.choice([1, F(1, 4)]))}
                 true = {**true, **c["y0"]}
-            if rng.random() < 0.5 or c["method"] != "L-BFGS-B":
-                c["bounds"] = {n: [q(F(1, 1000)), q(F(100))] for n in p0}
+            if style == "initial+y0":
+                # the caller passes the nominal initial conditions of ALL variables and fits one of them: the candidate
+                # value of the fitted variable is what gets simulated
+                c["y0"] = {"x": q(rng.choice([1, F(5, 2)])), "y": q(rng.choice([1, F(1, 4)]))}
+                true = {**true, "y": c["y0"]["y"]}
+            if rng.random() < 0.6 or c["method"] != "L-BFGS-B":
+                # boxes as the caller writes them: any subset of the fitted names, in any order; a box may exclude
+                # the true value (then the fit has to stop at its edge)
+                names_b = [n for n in p0 if rng.random() < 0.7] or [list(p0)[-1]]
+                rng.shuffle(names_b)
+                c["bounds"] = {}
+                for n in names_b:
+                    t = abs(F(true[n]))
+                    lo, hi = rng.choice([(t / 100, t * 100), (t / 4, t * 4), (t * F(9, 8), t * 3), (t / 3, t * F(7, 8))])
+                    if not lo <= F(p0[n]) <= hi:
+                        lo, hi = min(lo, F(p0[n])), max(hi, F(p0[n]))
+                    c["bounds"][n] = [q(lo), q(hi)]
+                if c["method"] != "L-BFGS-B":
+                    for n in p0:  # Nelder-Mead / Powell wander: keep every fitted name in a sane box
+                        c["bounds"].setdefault(n, [q(abs(F(true[n])) / 100), q(abs(F(true[n])) * 100)])
         cols = gen_cols(rng, c["model"], c["kind"], c["loss"])
         if cols:
             c["cols"] = cols
         c.update(true=true, p0=p0)
         cases.append(c)
+    # F-C20-5: scipy's bounded Powell started on the edge of a box ends worse than it started, and says "success"
+    cases.append({"model": "chain", "kind": "protocol", "loss": "rmse", "scaled": True, "fit": True, "method": "Powell",
+                  "bounds": {"k3": ["1/200", "50"], "k2": ["3/2", "6"], "x": ["9/4", "6"]}, "cols": ["v2", "v3", "x", "y"],
+                  "true": {"k1": "1", "k2": "2", "k3": "1/2", "x": "2"}, "p0": {"k2": "3/2", "k3": "3/4", "x": "3"}})
     # F-C20-4: a start value outside the silently applied default box (1e-6, 1e6)
     cases.append({"model": "lin", "kind": "time_course", "loss": "mean_squared", "scaled": False, "fit": True,
                   "method": "L-BFGS-B", "true": {"k_in": "1", "a": "-1"}, "p0": {"a": "-1/2"}})
     return cases
+
+
+# ----------------------------------------------------------------------------- the wrapper chain on a cheap residual
+def quad_residual(updates, settings):
+    """a residual the caller supplies through the public `residual_fn=`: squared distance to the targets in `data`"""
+    return float(sum((float(updates[k]) - float(settings.data[k])) ** 2 for k in settings.data.index))
+
+
+def gen_quad_case(rng):
+    names = rng.sample(["k1", "k2", "k3", "x", "y"], rng.randint(2, 4))
+    target = {n: rng.choice([F(1, 2), 1, 2, 3, 5]) for n in names}
+    p0 = {n: q(target[n] * rng.choice([F(3, 4), F(5, 4), F(3, 2), 1])) for n in names}
+    c = {"quad": True, "kind": rng.choice(["steady_state", "time_course", "protocol"]), "p0": p0,
+         "target": {n: q(v) for n, v in target.items()}, "method": rng.choice(["L-BFGS-B", "L-BFGS-B", "Nelder-Mead", "Powell", "TNC", "SLSQP"])}
+    if rng.random() < 0.8:
+        names_b = [n for n in names if rng.random() < 0.6] or [names[-1]]
+        rng.shuffle(names_b)  # the caller's order, not p0's
+        c["bounds"] = {}
+        for n in names_b:
+            t = target[n]
+            lo, hi = rng.choice([(t / 10, t * 10), (t * F(9, 8), t * 3), (t / 3, t * F(7, 8)), (t / 2, t * 2)])
+            lo, hi = min(lo, F(p0[n])), max(hi, F(p0[n]))
+            c["bounds"][n] = [q(lo), q(hi)]
+    return c
+
+
+def real_quad_case(c):
+    import logging
+    import warnings
+
+    import pandas as pd
+    import scipy.optimize
+    logging.getLogger("mxlpy").setLevel(logging.ERROR)
+    warnings.filterwarnings("ignore")
+    from mxlpy import fit, make_protocol
+    from mxlpy.minimizers import _scipy as ms
+    p0 = {k: float(F(v)) for k, v in c["p0"].items()}
+    data = pd.Series({k: float(F(v)) for k, v in c["target"].items()})
+    rec = {}
+
+    def recording_minimize(fun, x0, **kw):
+        res = scipy.optimize.minimize(fun, x0=x0, **kw)
+        rec.update(x0=[float(t) for t in x0], x=[float(t) for t in res.x], fun=float(res.fun), success=bool(res.success),
+                   bounds=[list(b) for b in kw.get("bounds") or []])
+        return res
+
+    model = build("chain", {"k1": 1.0, "k2": 2.0, "k3": 1.0})
+    before = fingerprint(model)
+    fitfn = {"steady_state": fit.steady_state, "time_course": fit.time_course, "protocol": fit.protocol_time_course}[c["kind"]]
+    kw = dict(p0=p0, data=data, minimizer=fit.LocalScipyMinimizer(tol=1e-10, method=c["method"]), residual_fn=quad_residual)
+    if c.get("bounds"):
+        kw["bounds"] = {k: tuple(float(F(t)) for t in v) for k, v in c["bounds"].items()}
+    if c["kind"] == "protocol":
+        kw["protocol"] = make_protocol([(1, {"k1": 1.0})])
+    old = ms.minimize
+    ms.minimize = recording_minimize
+    out = {}
+    try:
+        try:
+            res = fitfn(model, **kw)
+        except Exception as e:  # noqa: BLE001
+            return {"raised": type(e).__name__, "rec": rec, "after_equal": fingerprint(model) == before}
+    finally:
+        ms.minimize = old
+    out["rec"] = rec
+    out["after_equal"] = fingerprint(model) == before
+    val = res.value
+    if type(val).__name__ == "Fit":
+        out["fit"] = {"best": [[k, float(v)] for k, v in val.best_pars.items()], "loss": float(val.loss)}
+    else:
+        out["fit"] = type(val).__name__
+    return out
+
+
+def judge_quad(ctx, c, r):
+    ctx.count(c, f"wrapper:{c['kind']}:{c['method']}:{len(c['p0'])}names:" + (
+        "no-bounds" if not c.get("bounds") else ("bounds-in-p0-order" if list(c["bounds"]) == [k for k in c["p0"] if k in c["bounds"]]
+                                                 and list(c["p0"])[: len(c["bounds"])] == list(c["bounds"]) else "bounds-other-order/subset")))
+    rec = r["rec"]
+    if rec.get("bounds") is not None and "x0" in rec:
+        want = [[float(F(t)) for t in c["bounds"][k]] if k in (c.get("bounds") or {}) else None for k in c["p0"]]
+        Rb = [[float(t) for t in b] for b in rec["bounds"]]
+        Mb = None
+        if ctx.driver_ok:
+            (mb,) = driver.call_batch([{"op": "c20", "bounds": {"names": list(c["p0"]), "given": [[k, v] for k, v in (c.get("bounds") or {}).items()]}}])
+            Mb = [[float(F(t)) for t in b] for b in mb]
+        Sb = [w if w is not None else (Mb[i] if Mb else Rb[i]) for i, w in enumerate(want)]
+        ctx.judge({"stream": "bounds", **c}, Rb, Sb, Mb, what="boxes passed to scipy.optimize.minimize follow the names of p0")
+    if "raised" in r or isinstance(r.get("fit"), str):
+        ctx.judge({"stream": "quad", **c}, {"input_untouched": r["after_equal"]}, {"input_untouched": True}, None,
+                  what="failed / raising minimisation leaves the input alone")
+        return
+    f = r["fit"]
+    tgt = {k: float(F(v)) for k, v in c["target"].items()}
+    quad = lambda d: sum((d[k] - tgt[k]) ** 2 for k in tgt)  # noqa: E731
+    best = dict(f["best"])
+    tolr = 1e-12 * max(1.0, abs(f["loss"]))
+    R = {"loss_is_residual_at_best": abs(f["loss"] - quad(best)) <= tolr,
+         "loss_le_residual_p0": f["loss"] <= quad({k: float(F(v)) for k, v in c["p0"].items()}) + tolr,
+         "names": list(best), "input_untouched": r["after_equal"],
+         "best_within_requested_bounds": all(float(F(c["bounds"][k][0])) - 1e-9 <= v <= float(F(c["bounds"][k][1])) + 1e-9
+                                             for k, v in best.items() if k in (c.get("bounds") or {}))}
+    S = {"loss_is_residual_at_best": True, "loss_le_residual_p0": True, "names": list(c["p0"]), "input_untouched": True,
+         "best_within_requested_bounds": True}
+    ctx.judge({"stream": "quad", **c}, R, S, None, what="fit.* through a caller-supplied residual: honest loss, names, boxes respected")
+    if ctx.driver_ok:
+        (mv,) = driver.call_batch([{"op": "c20", "fit": {"p0": [[k, q(F(v))] for k, v in c["p0"].items()],
+                                                         "res": [[q(F(x)) for x in rec["x"]], q(F(rec["fun"]))]}}])
+        Rw = {"best": [[k, q(F(v))] for k, v in f["best"]], "loss": q(F(f["loss"]))}
+        ctx.judge({"stream": "wrap", **c}, Rw, {"best": [[k, q(F(x))] for k, x in zip(c["p0"], rec["x"])], "loss": q(F(rec["fun"]))},
+                  mv, what="Fit(best_pars, loss) = names of p0 zipped with res.x, res.fun")
 
 
 def run_fit_cases(cases, timeout=120):
@@ -647,7 +811,7 @@ def run_fit_cases(cases, timeout=120):
     import pebble
     out = []
     with pebble.ProcessPool(max_workers=min(16, os.cpu_count() or 4)) as pool:
-        futs = [pool.schedule(real_fit_case, args=(c,), timeout=timeout) for c in cases]
+        futs = [pool.schedule(real_quad_case if c.get("quad") else real_fit_case, args=(c,), timeout=timeout) for c in cases]
         for f in futs:
             try:
                 out.append(f.result())
@@ -689,7 +853,7 @@ def run(ctx):
     # the percentage loss divides by its FIRST argument: this is where the argument order of _Settings.loss shows
     set_cases += [{"loss": "mean_absolute_percentage", "d": c["d"], "p": c["p"], "on": False}
                   for c in (gen_loss_case(rng, "mean_absolute_percentage") for _ in range(ctx.n(12, 200)))]
-    fit_cases = gen_fit_cases(ctx)
+    fit_cases = gen_fit_cases(ctx) + [gen_quad_case(rng) for _ in range(ctx.n(40, 600))]
     import mxlpy  # noqa: F401
     with cf.ProcessPoolExecutor(max_workers=4) as ex:
         chunks = [loss_cases[i:i + 100] for i in range(0, len(loss_cases), 100)]
@@ -703,7 +867,12 @@ def run(ctx):
     for c, r in zip(set_cases, Rs):
         judge_settings(ctx, c, r)
     for c, r in zip(fit_cases, Rf):
-        judge_fit(ctx, c, r)
+        if c.get("quad"):
+            if r.get("timeout"):
+                continue
+            judge_quad(ctx, c, r)
+        else:
+            judge_fit(ctx, c, r)
     if not ctx.proof_ok or ctx.drift:
         ctx.notes.append("proof/correspondence broken: the run above is the failing-input search")
     if os.environ.get("C20_DEBUG"):
@@ -727,4 +896,7 @@ def replay(ctx, rp):
     else:
         (r,) = run_fit_cases([c])
         print("R =", r)
-        judge_fit(ctx, c, r)
+        if c.get("quad"):
+            judge_quad(ctx, c, r)
+        else:
+            judge_fit(ctx, c, r)
